@@ -4,7 +4,7 @@ import ast
 from ..index import u, call_name, call_attr, walk_local, base_name, dotted
 from .. import flow
 from ..fold import try_fold
-from ..util import stmts_with_env, calls_with_env, assignments_to, param_names, kwarg
+from ..util import stmts_with_env, calls_with_env, assignments_to, param_names, kwarg, single_def
 from .common import method, guarded_by_raise, has_atom, unconditional_in
 
 MOL = 'vermouth/molecule.py'
@@ -62,18 +62,17 @@ def consuming_uses(fn, name):
     return uses, rebound_at
 
 
-def run(ck):
+def merge_rules(ck):
+    """merge_molecule: fresh keys above the highest present key, every reference rewritten (shared with C01)."""
     idx = ck.index
     mod = idx.mod(MOL)
     cls = mod.cls('Molecule')
-    blk = mod.cls('Block')
 
     def M(name, c=cls):
         m = method(c, name)
         ck.need(m is not None, '{}.{} vanished'.format(c.name, name))
         ck.analysed(mod, m)
         return m
-
     # ------------------------------------------------------------ CACHE: merge offset
     merge = M('merge_molecule')
     enums = [c for c in walk_local(merge) if isinstance(c, ast.Call) and call_name(c) == 'enumerate' and kwarg(c, 'start') is not None]
@@ -168,6 +167,22 @@ def run(ck):
         atoms = flow.atoms_of(rel[0][1]) if rel else {('?',)}
         ok = ok and all(k[0] == 'Eq' and 'correspondence[node1]' in k and 'correspondence[node2]' in k for k in atoms)
     ck.ob('PROV-merge', mod.loc(merge), ok, 'every bond of the newcomer is added between the translated ends (only a self-loop may be skipped)', key='PROV-merge|edges')
+
+
+
+def run(ck):
+    idx = ck.index
+    mod = idx.mod(MOL)
+    cls = mod.cls('Molecule')
+    blk = mod.cls('Block')
+
+    def M(name, c=cls):
+        m = method(c, name)
+        ck.need(m is not None, '{}.{} vanished'.format(c.name, name))
+        ck.analysed(mod, m)
+        return m
+
+    merge_rules(ck)
 
     # ------------------------------------------------------------ Block.to_molecule
     tm = M('to_molecule', blk)
@@ -324,4 +339,42 @@ def run(ck):
     eb = [c for c in walk_local(sg) if isinstance(c, ast.Call) and call_attr(c) == 'edges_between']
     ck.ob('PROV-subgraph', mod.loc(sg), len(eb) == 1 and [u(a) for a in eb[0].args] == ['nodes', 'nodes'], 'subgraph copies the edges among the kept nodes only',
           key='PROV-subgraph|edges')
+    # ------------------------------------------------------------ callers that merge whole molecules keep every operand
+    mam = idx.mod('vermouth/processors/merge_all_molecules.py')
+    rs = mam.func('MergeAllMolecules.run_system')
+    ck.analysed(mam, rs)
+    lp = [n for n in rs.body if isinstance(n, ast.For)]
+    ok = len(lp) == 1 and u(lp[0].iter) == 'system.molecules[1:]' and len(lp[0].body) == 1 and u(lp[0].body[0]) == 'molecule.merge_molecule({})'.format(u(lp[0].target)) \
+        and u(single_def(rs, 'molecule')) == 'system.molecules[0]' and any(isinstance(s_, ast.Assign) and u(s_) == 'system.molecules = [molecule]' for s_ in rs.body)
+    ck.ob('PROV-merge-callers', mam.loc(rs), ok, 'MergeAllMolecules merges every further molecule of the system into the first one, unconditionally', key='PROV-merge-callers|merge_all')
+    mcm = idx.mod('vermouth/processors/merge_chains.py')
+    mc = mcm.func('merge_chains')
+    ck.analysed(mcm, mc)
+    lp = [n for n in mc.body if isinstance(n, ast.For) and u(n.iter) == 'system.molecules' and any(isinstance(c, ast.Call) and call_attr(c) == 'merge_molecule' for c in ast.walk(n))]
+    ok = len(lp) == 1
+    if ok:
+        mcalls = stmts_with_env(mc, lambda s_: isinstance(s_, ast.Expr) and call_attr(s_.value) == 'merge_molecule', stmts=lp[0].body)
+        keep = stmts_with_env(mc, lambda s_: isinstance(s_, ast.Expr) and call_attr(s_.value) == 'append' and u(s_.value.args[0]) == u(lp[0].target), stmts=lp[0].body)
+        ok = len(mcalls) == 1 and len(keep) == 1 and flow.equivalent(mcalls[0][1], flow.NOT(keep[0][1]))[0] and u(mcalls[0][0].value.args[0]) == u(lp[0].target) \
+            and u(lp[0].iter) == 'system.molecules'
+    ck.ob('PROV-merge-callers', mcm.loc(mc), ok, 'merge_chains either merges a molecule (in system order) or keeps it: none is dropped', key='PROV-merge-callers|merge_chains')
+    sysm = idx.mod('vermouth/system.py')
+    cp2 = sysm.func('System.copy')
+    ck.ob('ALIAS-copy', sysm.loc(cp2), 'new_system.molecules = [mol.copy() for mol in self.molecules]' in u(cp2), 'System.copy copies every molecule', key='ALIAS-copy|system')
+    ri = M('remove_interaction')
+    dl = [s_ for s_ in ri.body if isinstance(s_, ast.Delete)]
+    fl = [n for n in ri.body if isinstance(n, ast.For)]
+    ok = len(fl) == 1 and fl[0].orelse and isinstance(fl[0].orelse[-1], ast.Raise) and len(dl) == 1 and u(dl[0]) == 'del self.interactions[type_][idx]'
+    if ok:
+        br = stmts_with_env(ri, lambda s_: isinstance(s_, ast.Break), stmts=fl[0].body)
+        names = {}
+        for k in flow.atoms_of(br[0][1]):
+            if k[0] == 'Eq' and set(k[1:]) == {'interaction.atoms', 'atoms'}:
+                names[k] = 'ATOMS'
+            elif k[0] == 'Eq' and "get('version', 0)" in ' '.join(map(str, k)) and 'version' in k[1:]:
+                names[k] = 'VERSION'
+        ok = flow.equivalent(flow.rename(br[0][1], names), flow.parse_formula('ATOMS and VERSION'))[0] and len(names) == 2
+    ck.ob('PAIR-removal', mod.loc(ri), ok, 'remove_interaction deletes exactly the entry with those atoms and that version, and raises when there is none', key='PAIR-removal|remove_interaction')
+    from . import shared
+    shared.truthy_zero(ck, [MOL, 'vermouth/system.py', 'vermouth/processors/merge_chains.py', 'vermouth/processors/merge_all_molecules.py'])
     ck.assume('arbitrary interleavings beyond these invariants are not decided; node keys of a receiving molecule are assumed comparable (ints)')
